@@ -59,6 +59,52 @@ func c07R1(c *Ctx, id string) {
 			}
 			c.check(fmt.Sprintf("%s:%s:pgid=0#%d", id, name, k), st.Fn, st.Instr.Pos(), "a node forgets its page id only after freelist.Free(tx.page(node.pgid)) on the same path", ok, "the page id is dropped without being freed: the page leaks")
 		}
+		// (1b) node.spill: the node's page id is replaced by the new page's id only after the old page (if any) was freed
+		sp := c.fn("bbolt.(*node).spill")
+		for _, st := range storesToField([]*ssa.Function{sp}, pgidF) {
+			if _, isC := constInt(st.Val); isC {
+				continue
+			}
+			ok := false
+			detail := "no dominating `node.pgid > 0` test"
+			for b := st.Instr.Block().Idom(); b != nil; b = b.Idom() {
+				iff, isIf := b.Instrs[len(b.Instrs)-1].(*ssa.If)
+				if !isIf {
+					continue
+				}
+				bo, isBin := iff.Cond.(*ssa.BinOp)
+				if !isBin || bo.Op != token.GTR || pathOf(bo.X).Last() != pgidF {
+					continue
+				}
+				if k, isC := constInt(bo.Y); !isC || k != 0 {
+					continue
+				}
+				r := reach(nil, []*ssa.BasicBlock{b.Succs[0]}, func(in ssa.Instruction) bool { return isCallTo(in, "freelist.Interface.Free") }, nil)
+				ok = !r[st.Instr]
+				detail = "with an old page id (> 0) the new id can be stored without the old page having been freed"
+			}
+			c.check(id+":bbolt.(*node).spill:pgid-replaced-after-free", sp, st.Instr.Pos(), "in spill a node's page id is overwritten with the new page's id only after its old page, if it had one, was handed to Free", ok, detail)
+		}
+		// (1c) Bucket.spill: a child that became small enough to be inlined frees its pages before it is written inline
+		bs := c.fn("bbolt.(*Bucket).spill")
+		okInl := false
+		for _, call := range plainCallsIn(bs, "bbolt.(*Bucket).inlineable") {
+			for _, r := range *call.Referrers() {
+				iff, isIf := r.(*ssa.If)
+				if !isIf {
+					continue
+				}
+				writes := plainCallsIn(bs, "bbolt.(*Bucket).write")
+				rr := reach(nil, []*ssa.BasicBlock{iff.Block().Succs[0]}, func(in ssa.Instruction) bool { return isCallTo(in, "bbolt.(*Bucket).free") }, nil)
+				okInl = len(writes) > 0
+				for _, w := range writes {
+					if rr[w] {
+						okInl = false
+					}
+				}
+			}
+		}
+		c.check(id+":bbolt.(*Bucket).spill:inline-frees-pages", bs, bs.Pos(), "a child bucket that is written inline first frees the pages it occupied (child.free() before child.write() on the inlineable branch)", okInl, "the inlineable branch can write the bucket inline without freeing its pages")
 		// (2) SetRootPage(0) only after the bucket's pages were freed
 		for _, fn := range c.P.FnsIn(rootPkg) {
 			for i, call := range plainCallsIn(fn, "common.(*InBucket).SetRootPage") {
